@@ -233,6 +233,7 @@ class DocGen:
         self.ts, self.r = ts, rng
         self.max_depth, self.max_items = max_depth, max_items
         self.p_dir, self.p_frag, self.p_alias = p_dir, p_frag, p_alias
+        self.p_dup = 0.2
 
     def dirs(self):
         if self.r.random() >= self.p_dir:
@@ -283,6 +284,11 @@ class DocGen:
             made += 1
             if comp:
                 self.sels(ft, depth + 1, flat, budget)
+                # the same response key again with another sub-selection: the two must be merged (also below)
+                if r.random() < self.p_dup and budget[0] > 0:
+                    flat.append({"d": depth, "k": "field", "name": f, "alias": alias, "on": "", "dir": ""})
+                    budget[0] -= 1
+                    self.sels(ft, depth + 1, flat, budget)
         if made == 0:
             flat.append({"d": depth, "k": "field", "name": "__typename", "alias": "", "on": "", "dir": ""})
 
